@@ -182,6 +182,7 @@ def run_shard(params, rec):
                 r = rng.random()
                 post = None
                 entry = None
+                asserted = False
                 stale_pre = stale_waiters(g)
                 try:
                     if r < 0.27:
@@ -312,6 +313,7 @@ def run_shard(params, rec):
                     if entry is None:
                         raise
                     entry.append("raised %s" % type(exc).__name__)
+                    asserted = isinstance(exc, AssertionError)
                 rec.count("op:" + opname)
                 rec.count("ops")
                 rec.count("accepted" if accepted else "rejected")
@@ -343,6 +345,11 @@ def run_shard(params, rec):
                     if check_graph(g, lks, "rebuild_edges", hist) is not None:
                         raise Stop()
                     hist.append(["(harness) rebuild_edges"])
+                if asserted and "two constraint kinds" in dup_class(list(g.blocks)):
+                    # add_block/merge/add_edge gave up half-way on a block with two kinds to one destination
+                    # (the known mechanism): what was skipped may only show later, so the history ends here
+                    rec.count("histories_ended_after_two_kinds_assertion")
+                    raise Stop()
                 if g.pendings and any(g.pendings.values()):
                     had_pending = True
                 if g.edges():
